@@ -9,6 +9,8 @@
 #include <gcrypt.h>
 #include <string>
 #include <vector>
+#include <setjmp.h>
+#include <signal.h>
 
 namespace pgp {
 
@@ -291,7 +293,7 @@ inline bool view_mpi(const octets &b, size_t &off, octets &val)
 // and the integer values of the signature MPIs.  Unhashed subpackets and slack in MPI bit counts are not part of it.
 struct SigSem { bool ok; octets hashed, left; std::vector<octets> mpis; size_t unh_lo, unh_hi; };
 
-inline SigSem sig_semantics(const octets &body)
+inline SigSem sig_semantics(const octets &body, bool allow_trailing = false)
 {
 	SigSem s;
 	s.ok = false, s.unh_lo = s.unh_hi = 0;
@@ -321,7 +323,7 @@ inline SigSem sig_semantics(const octets &body)
 			return s;
 		s.mpis.push_back(v);
 	}
-	if (off != body.size())
+	if (off != body.size() && !allow_trailing)
 		return s;
 	s.ok = true;
 	return s;
@@ -330,6 +332,117 @@ inline bool same_sem(const SigSem &a, const SigSem &b)
 {
 	return a.ok && b.ok && a.hashed == b.hashed && a.left == b.left && a.mpis == b.mpis;
 }
+
+// cryptographic content of a public key packet body (v4/v5): algorithm and the values of its fields; creation time,
+// version and the v5 octet count are identity, not key material
+struct KeySem { bool ok; unsigned version, algo; uint32_t created; std::vector<octets> f; };
+inline KeySem key_semantics(const octets &body)
+{
+	KeySem k;
+	k.ok = false, k.version = k.algo = 0, k.created = 0;
+	if (body.size() < 6 || (body[0] != 4 && body[0] != 5))
+		return k;
+	k.version = body[0];
+	k.created = ((uint32_t)body[1] << 24) | (body[2] << 16) | (body[3] << 8) | body[4];
+	k.algo = body[5];
+	size_t off = body[0] == 5 ? 10 : 6;
+	if (off > body.size())
+		return k;
+	int n = (k.algo >= 1 && k.algo <= 3) ? 2 : (k.algo == 16 ? 3 : (k.algo == 17 ? 4 : 0));
+	if (n)
+	{
+		for (int i = 0; i < n; i++)
+		{
+			octets v;
+			if (!view_mpi(body, off, v))
+				return k;
+			k.f.push_back(v);
+		}
+	}
+	else if (k.algo == 18 || k.algo == 19 || k.algo == 22)
+	{
+		if (off >= body.size())
+			return k;
+		size_t ol = body[off];
+		if (ol == 0 || ol == 255 || off + 1 + ol > body.size())
+			return k;
+		k.f.push_back(octets(body.begin() + off + 1, body.begin() + off + 1 + ol));
+		off += 1 + ol;
+		octets v;
+		if (!view_mpi(body, off, v))
+			return k;
+		k.f.push_back(v);
+		if (k.algo == 18)
+		{
+			if (off + 4 > body.size())
+				return k;
+			k.f.push_back(octets(body.begin() + off, body.begin() + off + 4));
+			off += 4;
+		}
+	}
+	else
+		return k;
+	if (off != body.size())
+		return k;
+	k.ok = true;
+	return k;
+}
+inline bool same_keymat(const KeySem &a, const KeySem &b) { return a.ok && b.ok && a.algo == b.algo && a.f == b.f; }
+
+// RFC 4880 5.2.1 canonical text: every LF not preceded by CR gets one
+inline octets canon_text(const octets &d)
+{
+	octets o;
+	int last = -1;
+	for (size_t i = 0; i < d.size(); i++)
+	{
+		if (d[i] == 0x0A && last != 0x0D)
+			o.push_back(0x0D);
+		o.push_back(d[i]);
+		last = d[i];
+	}
+	return o;
+}
+
+// run a library call so that a fatal signal inside it (SIGSEGV, SIGBUS, SIGFPE, SIGABRT from an assert) becomes an outcome
+// instead of killing the driver: returns 0 and sets `result`, or returns the signal number.
+struct Guard {
+	static sigjmp_buf &jb() { static sigjmp_buf b; return b; }
+	static volatile sig_atomic_t &on() { static volatile sig_atomic_t g = 0; return g; }
+	static void handler(int s)
+	{
+		if (on())
+			siglongjmp(jb(), s);
+		signal(s, SIG_DFL);
+		raise(s);
+	}
+	static void install()
+	{
+		int sigs[] = { SIGSEGV, SIGBUS, SIGFPE, SIGABRT, SIGILL };
+		for (int i = 0; i < 5; i++)
+		{
+			struct sigaction sa;
+			memset(&sa, 0, sizeof sa);
+			sa.sa_handler = handler;
+			sa.sa_flags = SA_NODEFER;
+			sigaction(sigs[i], &sa, NULL);
+		}
+	}
+	template<class F> static int run(F f, bool &result)
+	{
+		on() = 1;
+		int s = sigsetjmp(jb(), 1);
+		if (s == 0)
+		{
+			result = f();
+			on() = 0;
+			return 0;
+		}
+		on() = 0;
+		return s;
+	}
+};
+inline bool mapped_hash(unsigned h) { return h == 1 || h == 2 || h == 3 || (h >= 8 && h <= 12) || h == 14; }
 
 }
 #endif
